@@ -312,7 +312,28 @@ def dented_octahedron(depth=0.35):
     return v, new_faces, True
 
 
+def square_ring():
+    """Genus-1 solid: a square frame (outer half-width 2, hole half-width 1, height 1) with
+    trapezoidal top/bottom faces - V=16, F=16, E=32, so V-E+F = 0."""
+    c = [(1, 1), (-1, 1), (-1, -1), (1, -1)]  # counter-clockwise seen from +z
+    ob = [[2.0 * x, 2.0 * y, 0.0] for x, y in c]
+    ot = [[2.0 * x, 2.0 * y, 1.0] for x, y in c]
+    ib = [[1.0 * x, 1.0 * y, 0.0] for x, y in c]
+    it = [[1.0 * x, 1.0 * y, 1.0] for x, y in c]
+    v = ob + ot + ib + it
+    OB, OT, IB, IT = 0, 4, 8, 12
+    faces = []
+    for i in range(4):
+        j = (i + 1) % 4
+        faces.append([OT + i, OT + j, IT + j, IT + i])  # top, +z
+        faces.append([OB + i, IB + i, IB + j, OB + j])  # bottom, -z
+        faces.append([OB + i, OB + j, OT + j, OT + i])  # outer wall
+        faces.append([IB + i, IT + i, IT + j, IB + j])  # inner wall (faces the hole)
+    return v, faces, True
+
+
 NONCONVEX3D = {
+    "square_ring": square_ring,
     "l_prism_split": l_prism_split,
     "l_prism_nonconvex": l_prism_nonconvex,
     "u_prism_split": u_prism_split,
